@@ -11,3 +11,11 @@ Theorem C20_dag_history : forall ops s,
   dtrace {| dassertions := false |} s ops = dtrace {| dassertions := true |} s ops.
 Proof. exact dag_assert_irrelevant_run. Qed.
 Print Assumptions C20_dag_history.
+
+(* hook failures included: if the checks do not refuse the call (its hook-free version is accepted),
+   the operation gives the same state and outcome under both settings of the switch, whatever its
+   hooks do (pass, fail before, fail after) *)
+Theorem C20_dag_hook_failure_irrelevant : forall cfg1 cfg2 s o,
+  snd (dstep cfg1 s (strip_faults o)) = Ok -> dstep cfg2 s o = dstep cfg1 s o.
+Proof. exact dag_hook_failure_irrelevant. Qed.
+Print Assumptions C20_dag_hook_failure_irrelevant.
